@@ -7,7 +7,7 @@ checked against format predicates and vf.ref.severity.
 import math
 import re
 
-from .. import core, spaces, sweep
+from .. import core, observe, spaces, sweep
 from ..engine import product
 from ..ref import score2, severity, tables as T
 
@@ -22,7 +22,7 @@ def judge(fam, vec, asg):
     cls = getattr(cvss, T.CLASSNAME[fam])
     try:
         first = cls(vec).scores()
-        obj = cls(vec)          # the checks run on a second object built from the same string
+        obj = observe.construct(fam, vec)   # the checks run on a second object built from the same string
         sc = obj.scores()
         if sc != first:
             return "a second object built from the same string scores %r, the first %r" % (sc, first), None
